@@ -76,6 +76,8 @@ def run(tier, seed, replay):
         nobs = 0
         for c in cases:
             for (tag, eq, d, r) in out.get(c.k, []):
+                if tag.startswith("flags-"):
+                    continue
                 nobs += 1
                 chk.count(("rt", c.decl, tag), True)
                 if not eq:
